@@ -551,6 +551,8 @@ def length_sets(fn, target, removed=None):
             continue
         d = fv.switch_discr(b)
         e = cfg.bool_switch_edges(t)
+        if e is not None and is_len_of(d, target):
+            e = None   # `match v.len() { 1 => .., _ => .. }`: an integer switch that merely looks like a bool one
         if e is not None:
             tt, ft = e
             n = 0
